@@ -280,6 +280,14 @@ def build_case(r, tier):
             v += ["-v"]
         case.update({"verbs": [v] + ([["put", "$v = \"mutated\""]] if emitv and r.chance(0.6) else []), "split": {"prefix": prefix or "split", "suffix": suffix,
                      "joiner": joiner or "_", "folder": folder, "append": app, "emit": emitv}})
+        if r.chance(0.2):
+            # two grouping fields; different value tuples may read the same once joined with a comma
+            tuples = [("a,b", "c"), ("a", "b,c"), ("x", "y"), ("x,y", ""), ("x", "y,"), ("p", "q")][:max(2, min(6, ntargets))]
+            recs = [[("k", t[0]), ("k2", t[1])] + rec[1:] for rec, t in ((rec, tuples[i % len(tuples)] if pat == "rr" else r.choice(tuples)) for i, rec in enumerate(recs))]
+            case["recs"] = recs
+            case["ifmt"] = "json"
+            v[v.index("-g") + 1] = "k,k2"
+            case["split"]["two"] = True
     elif mode in ("split_m", "split_n"):
         cnt = r.choice([1, 2, 3, 5]) if mode == "split_n" else ntargets
         v = ["split", "-n" if mode == "split_n" else "-m", str(cnt), "--prefix", "sp", "--suffix", "out"]
@@ -375,6 +383,8 @@ def target_map(case):
             sp = case["split"]
             suffix = sp["suffix"] or case["ofmt"]
             fn = urllib.parse.quote_plus(k, safe="")
+            if sp.get("two"):
+                fn = fn + sp["joiner"] + urllib.parse.quote_plus(rec[1][1], safe="")
             fn = sp["prefix"] + sp["joiner"] + fn
             fn = fn + "." + suffix
             if sp["folder"]:
